@@ -102,7 +102,30 @@ where
     I: IntoIterator<Item = Update<'a>>,
 {
     let mut applied = Applied::default();
-    for up in updates.into_iter() {
+    let updates = updates.into_iter().collect::<Vec<_>>();
+
+    // N.b. a non-fast-forward of a reference that must not be rewritten aborts
+    // the whole update. Look for those first, so that nothing is applied when
+    // that happens, instead of everything that came before it.
+    for up in &updates {
+        if let Update::Direct {
+            name,
+            target,
+            no_ff: Policy::Abort,
+        } = up
+        {
+            if let Some(prev) = refname_to_id(repo, name.clone())? {
+                if matches!(ancestry(repo, prev, *target)?, Ancestry::Diverged) {
+                    return Err(error::Update::NonFF {
+                        name: name.to_owned(),
+                        new: *target,
+                        cur: prev,
+                    });
+                }
+            }
+        }
+    }
+    for up in updates {
         match up {
             Update::Direct {
                 name,
